@@ -64,8 +64,8 @@ theorem plan_mem (s : Img) (M : WFmem s) (op : Op) (now : Int)
       have h2 := calculatedDataSize_nonneg s.h s.rds
       have h3 := M.doff
       have h4 := M.tabEnd
-      exact add_preserves_mem s M (findFreeSlot s.rds) d arch _ _ hi hfree hinuse hu hid
-        (by rw [hoff]; omega) (by rw [hsz]; omega)
+      exact (add_preserves_mem s M (findFreeSlot s.rds) d arch _ _ hi hfree hinuse hu hid
+        (by rw [hoff]; omega) (by rw [hsz]; omega)).1
   | del sel z c t =>
     simp only [plan] at *
     rcases deleteObjectsPlan_cases ph s sel z c t now with ⟨calls, e, h⟩ | ⟨_, _, h⟩
